@@ -224,4 +224,55 @@ theorem commit_below_min_commit_ts_refused (s : Store) (k : Bytes) (T C : TS) (l
   have : l.minCommitTS > C := hlt
   simp [this]
 
+/-! ### locks: who can put one, and released keys stay released (C06) -/
+
+/-- after a commit or rollback step of `T` the key carries no lock at all -/
+theorem KStep.release {e e' : Entry} {lab : KLabel} {T : TS} (h : KStep e lab e')
+    (hl : (∃ C, lab = .commit T C) ∨ lab = .rollback T) : e'.lock = none := by
+  rcases hl with ⟨C, rfl⟩ | rfl
+  · cases h with
+    | commit l k T C hl hT hC => exact commitLock_lock e l k T C
+  · cases h with
+    | rollback l k T hl hT => simp [rollbackLock, rollbackMarker, entryAct]
+
+/-- a key not locked by `T` stays not locked by `T` through every step except a `locks T` step -/
+theorem KStep.lockfree_preserved {e e' : Entry} {lab : KLabel} {T : TS} (h : KStep e lab e')
+    (hf : LockFreeOf e T) (hne : lab ≠ .locks T) : LockFreeOf e' T := by
+  cases h with
+  | same => exact hf
+  | commit l k T' C hl hT hC => intro l' hl'; rw [commitLock_lock] at hl'; cases hl'
+  | rollback l k T' hl hT => intro l' hl'; simp [rollbackLock, rollbackMarker, entryAct] at hl'
+  | marker k T' hnl hfr => intro l' hl'; exact hf l' (by simpa [rollbackMarker, entryAct] using hl')
+  | locks k T' acts ha hfr =>
+    intro l' hl'
+    rcases putLocks_lock e k T' acts ha with h1 | ⟨l2, h2, hT2⟩
+    · rw [h1] at hl'; exact hf l' hl'
+    · rw [h2] at hl'; injection hl' with hl'; subst hl'
+      intro heq; apply hne; rw [← heq, hT2]
+  | touch k T' l l' hl hT hT' hop =>
+    intro l2 hl2
+    have : l2 = l' := by simpa [entryAct] using hl2.symm
+    subst this
+    rw [hT', ← hT]; exact hf l hl
+  | unlock acts ha =>
+    intro l' hl'
+    rcases delLocks_lock e acts ha with h1 | h1
+    · rw [h1] at hl'; exact hf l' hl'
+    · rw [h1] at hl'; cases hl'
+  | gc k sp =>
+    intro l' hl'
+    have : ((gcWrites k e.writes sp true).foldl entryAct e).lock = e.lock := by
+      rw [gcWrites_eq, foldl_entryAct_delWrites]
+    rw [this] at hl'; exact hf l' hl'
+  | wipe => intro l' hl'; cases hl'
+
+/-- over a run: once a key is not locked by `T`, it is not locked by `T` after any commands that never take a
+    `locks T` step on it (i.e. `T` sends no further prewrite / pessimistic-lock request for that key) -/
+theorem runAll_lockfree (T : TS) (k : Bytes) (s : Store) (cs : List Cmd) (hs : SInv s) (hok : OkAll s cs)
+    (hg : GuardAll (fun _ lab => lab ≠ .locks T) k s cs) (hf : LockFreeOf (getEntry s.kv k) T) :
+    LockFreeOf (getEntry (runAll s cs).kv k) T :=
+  runAll_rel (fun e e' => LockFreeOf e T → LockFreeOf e' T) _ k
+    (fun _ h => h) (fun _ _ _ h1 h2 h => h2 (h1 h))
+    (fun _ _ _ _ hst hgd hfe => hst.lockfree_preserved hfe hgd) s cs hs hok hg hf
+
 end CGV.Mvcc
